@@ -52,7 +52,8 @@ def matches(entry, system_name, v):
 
 
 def write_replay(prop, system_name, viol):
-    d = os.path.join(ROOT, 'replays', prop)
+    # runs against a scratch copy of the repository (self-tests, seeded changes) keep their replays apart
+    d = os.path.join(ROOT, 'replays', prop) if os.path.abspath(REPO) == '/repo' else os.path.join(ROOT, 'replays', '_scratch', prop)
     os.makedirs(d, exist_ok=True)
     actions = list(viol['hist']) + ([viol['action']] if viol['action'] is not None else [])
     body = dict(property=prop, system=system_name, config=jsonable(viol['config']),
